@@ -620,17 +620,16 @@ func (s *Sim) DoCut(o CutOpts) (*RetransmitReport, error) {
 		if err := s.cmpRetransmit(x, gotN, wantN); err != nil {
 			return nil, err
 		}
-		if len(got) == len(gotN) && dropped > 0 {
+		if d := len(want) - len(got); d > 0 && d <= dropped {
+			dropped = d
 			m.Recvd[y] += dropped
 			s.label("resync_superseded_fee_dropped")
 		}
 		if oweRev && s.OnRevoke != nil {
-			rev := out[0]
-			if m.LastWasRevoke[x] && oweSig {
-				rev = out[len(gotN)-1]
-			}
-			if r, ok := rev.(*lnwire.RevokeAndAck); ok {
-				s.OnRevoke(x, m.RevsSent[x]-1, r, true)
+			for _, om := range out {
+				if r, ok := om.(*lnwire.RevokeAndAck); ok {
+					s.OnRevoke(x, m.RevsSent[x]-1, r, true)
+				}
 			}
 		}
 		s.Q[x] = append(s.Q[x], out...)
@@ -639,20 +638,37 @@ func (s *Sim) DoCut(o CutOpts) (*RetransmitReport, error) {
 	return rep, nil
 }
 
-// dropSupersededFees removes every update_fee that is followed by another
-// update_fee later in the same list.
+// dropSupersededFees normalises the update_fee messages of a retransmitted
+// batch: only the last one has an effect and its position relative to the
+// other updates of the same signed batch is immaterial (lnd coalesces fee
+// updates that no commitment covers yet), so the surviving one is moved in
+// front of the batch's other updates.
 func dropSupersededFees(ms []lnwire.Message) ([]lnwire.Message, int) {
-	lastFee := -1
+	lastFee, firstUpd := -1, -1
 	for i, m := range ms {
-		if _, ok := m.(*lnwire.UpdateFee); ok {
+		switch m.(type) {
+		case *lnwire.UpdateFee:
 			lastFee = i
+			if firstUpd < 0 {
+				firstUpd = i
+			}
+		case *lnwire.CommitSig, *lnwire.RevokeAndAck:
+		default:
+			if firstUpd < 0 {
+				firstUpd = i
+			}
 		}
 	}
 	var out []lnwire.Message
 	dropped := 0
 	for i, m := range ms {
-		if _, ok := m.(*lnwire.UpdateFee); ok && i != lastFee {
-			dropped++
+		if i == firstUpd && lastFee >= 0 {
+			out = append(out, ms[lastFee])
+		}
+		if _, ok := m.(*lnwire.UpdateFee); ok {
+			if i != lastFee {
+				dropped++
+			}
 			continue
 		}
 		out = append(out, m)
